@@ -4,7 +4,8 @@
      internal/proxy/request_signer.go:19-31,109-144 (mapRequestToHashInput), 169-194 (Sign), 196-211
      github.com/18F/hmacauth hmacauth.go: NewHmacAuth (canonical header names), StringToSign,
        requestSignature (body appended to the MAC input), SignRequest, AuthenticateRequest
-     internal/proxy/oauthproxy.go:738-749 (identity headers set by Authenticate)
+     internal/proxy/oauthproxy.go:41-48,554-559 (client identity headers dropped), 754-765 (identity
+       headers set by Authenticate)
      internal/proxy/reverse_proxy.go:107-129 (handler order), 137-163 (Director), 199-211 (signing
        handler: HMAC then RSA), 219-229 (singleJoiningSlash), 232-249 (deleteCookie)
      internal/proxy/options.go:52-79 (published certs: {key id: public key})
@@ -85,6 +86,7 @@ Definition hdel (k : str) (h : headers) : headers :=
   filter (fun e => negb (str_eqb (fst e) k)) h.
 Definition hset (k : str) (vs : list str) (h : headers) : headers := (k, vs) :: hdel k h.
 Definition hadd (k : str) (v : str) (h : headers) : headers := hset k (hvals k h ++ [v]) h.
+Definition hdel_all (ks : list str) (h : headers) : headers := fold_left (fun h k => hdel k h) ks h.
 
 (* net/textproto validHeaderFieldByte: RFC 7230 token characters *)
 Definition is_tchar (c : N) : bool :=
@@ -186,7 +188,13 @@ Definition mac_input (covh : list str) (r : request) : str := canon_hmac covh r 
 Definition hmac_names (sigheaders : list str) : list str := map canonical_key sigheaders.
 
 (* ------------------------------------------------------------------ the chain *)
-(* oauthproxy.go:738-749 (InjectRequestHeaders is empty in the documented examples) *)
+(* OAuthProxy.Proxy, oauthproxy.go:554-559: the identity headers (identityHeaders, oauthproxy.go:41-48)
+   a client supplied are deleted before the whitelist branch, for every request *)
+Definition identity_headers : list str :=
+  [x_forwarded_user; x_forwarded_email; x_forwarded_groups; x_forwarded_access_token].
+Definition scrub (r : request) : request := with_headers r (hdel_all identity_headers (r_headers r)).
+
+(* Authenticate, oauthproxy.go:754-765 (InjectRequestHeaders is empty in the documented examples) *)
 Definition inject (c : cfg) (i : identity) (r : request) : request :=
   let h := r_headers r in
   let h := hset x_forwarded_user [i_user i] h in
@@ -195,8 +203,9 @@ Definition inject (c : cfg) (i : identity) (r : request) : request :=
   let h := hset x_forwarded_email [i_email i] h in
   let h := hset x_forwarded_groups [join [comma] (i_groups i)] h in
   with_headers r h.
+(* [i] = None: a whitelisted (skip_auth_regex) request, which skips Authenticate *)
 Definition inject_opt (c : cfg) (i : option identity) (r : request) : request :=
-  match i with Some i => inject c i r | None => r end.
+  match i with Some i => inject c i (scrub r) | None => scrub r end.
 
 (* deleteCookie, reverse_proxy.go:232-249; [parsed] = (Name, String()) of req.Cookies() *)
 Definition delete_cookie (parsed : list (str * str)) (name : str) (r : request) : request :=
@@ -261,7 +270,6 @@ Definition hop_tokens (vals : list str) : list str :=
 (* the keys removeHopByHopHeaders deletes: h.Del canonicalises each token *)
 Definition hop_keys (h : headers) : list str :=
   map canonical_key (hop_tokens (hvals connection h)) ++ hop_headers.
-Definition hdel_all (ks : list str) (h : headers) : headers := fold_left (fun h k => hdel k h) ks h.
 
 (* httpguts.HeaderValuesContainsToken: case-insensitive token match *)
 Definition contains_token (vals : list str) (tok : str) : bool :=
